@@ -156,6 +156,107 @@ def st_token_sample(ctx, n, shapes, tokens, label="toksample", lo=3, hi=9):
 
 
 
+# ---------------------------------------------------------------- products of component classes
+
+KEL = "\u212a"
+CLS_TYPE = ["t", "cargo", "gem", "golang", "maven", "npm", "nuget", "pypi", "deb"]
+CLS_NS = [[], ["acme"], ["@scope"], ["github.com", "phylum-dev"], ["%40scope%2Fevil"], ["\u00dcn\u00ef", "\u01c5" + KEL], ["a:b c&d=e"],
+          ["x" * 30], ["g"], ["org.apache.commons", "sub+group"]]
+CLS_NAME = ["name", "a/b", "n@m", "Foo_.-Bar", "\u039f\u0394\u039f\u03a3", "\u0130" + KEL + "-x", "100%25", "n" * 40, "g:a", "report%2520final",
+            "@types/node", "\u023a\u023a_", "a+b c"]
+CLS_VER = [None, "1.0", "1.0/beta", "v@1", "1.0.0-rc.1+build.5", "\u00fc1", "%2F%2e", "1.0?x#y"]
+CLS_QUALS = [
+    ([], None),
+    ([("arch", "x86")], None),
+    ([("vcs_url", "git+https://github.com/a/b.git@abc#frag")], None),
+    ([("checksum", None)], [("sha1", "00ff")]),
+    ([("checksum", None)], [("md5", "00"), ("sha1", "11"), ("sha512", "22")]),
+    ([("a_b", "1"), ("aab", "2"), ("a-b", "3")], None),
+    ([("download_url", "https://e.com/x?y=1&z=2"), ("type", "jar"), ("classifier", "sources")], None),
+    ([("repository_url", "svn+ssh://host/r+1"), ("checksum", None), ("zz", "%41")], [("a", ""), ("b", "0a")]),
+]
+CLS_SUB = [[], ["src", "main.rs"], ["a", "...", "b"], ["\u00e9#?", "x y"], ["%2e%2e"], ["googleapis", "api", "@v1"]]
+CLS_FACTORS = [CLS_TYPE, CLS_NS, CLS_NAME, CLS_VER, CLS_QUALS, CLS_SUB]
+
+
+def cls_tuple(r, idx, shape):
+    ty = CLS_TYPE[idx[0]]
+    ty = flipcase(r, ty) if r.chance(1, 3) else ty
+    quals, cks = CLS_QUALS[idx[4]]
+    name = CLS_NAME[idx[2]]
+    ns = list(CLS_NS[idx[1]])
+    if name == "g:a" and ns and r.chance(1, 2):
+        name = ns[-1] + ":a"           # a name that starts with its own namespace
+    return Tuple(ty, ns, name, CLS_VER[idx[3]], [(k, v) for k, v in quals], list(CLS_SUB[idx[5]]), list(cks) if cks else None)
+
+
+def cls_indices(ctx, r):
+    """every combination of classes of any THREE components (the other three random); thorough: the full product"""
+    sizes = [len(f) for f in CLS_FACTORS]
+    if ctx.tier == "thorough":
+        for idx in itertools.product(*[range(n) for n in sizes]):
+            yield list(idx)
+        return
+    for tri in itertools.combinations(range(len(sizes)), 3):
+        for combo in itertools.product(*[range(sizes[i]) for i in tri]):
+            idx = [r.below(n) for n in sizes]
+            for i, v in zip(tri, combo):
+                idx[i] = v
+            yield idx
+
+
+def st_classes(ctx, shapes, label="classes"):
+    """parse requests: legal spellings of tuples drawn from the product of component classes (realistic values:
+    npm scopes, URLs with compound schemes, versions with '/', '+', '@', literal escapes, non-ASCII cased letters,
+    names that start with their namespace, checksums with several entries …)"""
+    r = ctx.rng(label)
+    out = []
+    gid = 0
+    for idx in cls_indices(ctx, r):
+        sh = r.pick(shapes)
+        t = cls_tuple(r, idx, sh)
+        gid += 1
+        fr = default_freedoms(r)
+        if r.chance(1, 2):
+            fr["pct"] = 0                  # keep raw what may be raw: raw '@' scopes, raw '/' in versions, …
+        s, used = spell(r, t, fr)
+        out.append(case("parse %s %s" % (sh, hx(s)), "spelling", s=s, shape=sh, tuple=t.to_json(), used=used, group="k%s%d" % (sh, gid)))
+    return out
+
+
+BUILD_NS_FORMS = [lambda x: x, lambda x: "/" + x + "/", lambda x: x.replace("/", "///"), lambda x: x.replace("/", "//") + "//"]
+BUILD_SUB_FORMS = [lambda x: x, lambda x: "/" + x + "/", lambda x: "./" + x.replace("/", "/./") + "/..", lambda x: x.replace("/", "////")]
+IDENT_OF = {"cargo": "Cargo", "gem": "Gem", "golang": "Golang", "maven": "Maven", "npm": "Npm", "nuget": "NuGet", "pypi": "PyPI"}
+
+
+def st_classes_build(ctx, shapes, label="classes-build"):
+    """the same product through the builder (values given un-normalised: extra / doubled / tripled slashes, dot pieces)"""
+    r = ctx.rng(label)
+    out = []
+    for idx in cls_indices(ctx, r):
+        sh = r.pick(shapes)
+        t = cls_tuple(r, idx, sh)
+        tyl = t.ty.lower()
+        if sh == "P":
+            if tyl not in IDENT_OF:
+                continue
+            ty = IDENT_OF[tyl]
+        else:
+            ty = hx(t.ty)
+        steps = []
+        if t.ns:
+            steps.append("ns:" + hx(r.pick(BUILD_NS_FORMS)("/".join(t.ns))))
+        if t.version is not None:
+            steps.append("ver:" + hx(t.version))
+        for k, v in t.quals:
+            steps.append("q:%s:%s" % (hx(flipcase(r, k)), hx(checksum_spell(r, t.cks) if v is None else v)))
+        if t.sub:
+            steps.append("sub:" + hx(r.pick(BUILD_SUB_FORMS)("/".join(t.sub))))
+        steps = r.shuffle(steps)
+        out.append(case("build %s %s %s %s" % (sh, ty, hx(t.name), ";".join(steps) if steps else "-"), "builder", shape=sh))
+    return out
+
+
 # ---------------------------------------------------------------- length boundaries
 
 LEN_BOUNDS = [15, 16, 22, 23, 24, 25, 31, 32, 33, 63, 64, 65, 127, 128, 129, 130, 131, 132, 255, 256, 257]
@@ -312,9 +413,9 @@ def rand_builder_step(r, shape):
     if c == 18:
         return "-qs" if r.chance(1, 4) else "q:%s:%s" % (k(), v())
     if c == 19:
-        return "tq:%d:%s" % (r.below(7), v())
+        return "tq:%d:%s" % (r.below(9), v())
     if c == 20:
-        return "-tq:%d" % r.below(7)
+        return "-tq:%d" % r.below(9)
     if c == 21:
         return "ck:" + rand_cksum_script(r, "+", ".", mutate_only=True)
     if c == 22:
@@ -417,9 +518,9 @@ def rand_quals_step(r, sep=":"):
     if c == 25:
         return J([r.pick(["eqk", "cmpk"]), str(r.below(3)), hx(r.pick(KEY_UNIVERSE + ["ǅ", KELVIN, "KEY", "İ"]))])
     if c == 26:
-        return J([r.pick(["gett", "hast", "rmt"]), str(r.below(7))])
+        return J([r.pick(["gett", "hast", "rmt"]), str(r.below(10))])
     if c == 27:
-        return J(["inst", str(r.below(7)), v()])
+        return J(["inst", str(r.below(9)), v()])
     if c == 28:
         return J(["ins", k(), v()])
     return J(["get", k()])
@@ -686,6 +787,52 @@ def st_shape(ctx, n, label="shape"):
     return out
 
 
+# ---------------------------------------------------------------- checksum texts
+
+def cksum_texts(ctx):
+    """every checksum text of up to three entries over the algorithms {a, b, c} in any order and with repetitions
+    (canonical-looking lower-case, and with one algorithm capitalised), plus hex-digit faults: each position of a
+    short hex string replaced by a character that some number parser might accept"""
+    out = []
+    algs = ["a", "b", "c"]
+    for k in range(1, 4):
+        for seq in itertools.product(algs, repeat=k):
+            ent = ["%s:%02x" % (a, 17 * i) for i, a in enumerate(seq)]
+            out.append(",".join(ent))
+            if k > 1:
+                out.append(",".join(e.upper() if i == k - 1 else e for i, e in enumerate(ent)))
+    for base in ["aabb", "AABB", "aAbB", "00ff", "0F"]:
+        for pos in range(len(base)):
+            for ch in "+- xXgG_.%/:":
+                out.append("sha1:" + base[:pos] + ch + base[pos + 1:])
+                out.append("md5:00,sha1:" + base[:pos] + ch + base[pos + 1:])
+    out += ["sha1:+aFF", "sha1:0x1F", "sha1:1e", "sha1:١٢", "sha1:ａｂ", "a:00,b", "a:00,,b:11", "a::00", ":00", "a:", ","]
+    if ctx.tier == "thorough":
+        for seq in itertools.product(algs + ["A"], repeat=4):
+            out.append(",".join("%s:%02x" % (a, 17 * i) for i, a in enumerate(seq)))
+    return out
+
+
+def st_cksum_texts(ctx, routes=("parse", "build", "api", "shape")):
+    out = []
+    for i, t in enumerate(cksum_texts(ctx)):
+        enc = t.replace("%", "%25").replace("+", "%2B").replace(" ", "%20")
+        if "parse" in routes:
+            s1 = "pkg:t/n?checksum=" + enc
+            out.append(case("parse S " + hx(s1), "cksum-text", s=s1, shape="S"))
+            if i % 3 == 0:
+                s2 = "pkg:cargo/n?Checksum=" + enc
+                out.append(case("parse P " + hx(s2), "cksum-text", s=s2, shape="P"))
+        if "build" in routes:
+            out.append(case("build S %s %s q:%s:%s" % (hx("t"), hx("n"), hx("checksum"), hx(t)), "builder", shape="S"))
+        if "api" in routes:
+            out.append(case("cksum of:%s;text;iter;rt" % hx(t), "cksum"))
+        if "shape" in routes:
+            s3 = "pkg:foo/n?checksum=" + enc
+            out.append(case("shape %d parse %s" % (0, hx(s3)), "shape-parse", bits=0, s=s3))
+    return out
+
+
 # ---------------------------------------------------------------- comparisons
 
 def st_cmp(ctx, n, shapes, label="cmp"):
@@ -737,6 +884,13 @@ def st_cmp(ctx, n, shapes, label="cmp"):
             if r.chance(1, 2):
                 c2 = c1
             out.append(case("cmp S b/%s/%s/%s b/%s/%s/%s" % (c1[2], c1[3], c1[4], c2[2], c2[3], c2[4]), "cmp-build"))
+    # a built value against its own canonical string parsed again (and against the same script built twice): equal,
+    # same string, same hash — for values given to the builder un-normalised
+    cb = [c for c in st_classes_build(ctx, [sh for sh in shapes if sh in ("S", "P")] or ["S"], label + "-cls")]
+    step = max(1, len(cb) // max(1, n // 2)) if ctx.tier == "quick" else 1
+    for c in cb[::step]:
+        t = c["req"].split(" ")
+        out.append(case("cmp %s b/%s/%s/%s rb/%s/%s/%s" % (t[1], t[2], t[3], t[4], t[2], t[3], t[4]), "cmp-reparse"))
     return out
 
 
